@@ -58,7 +58,7 @@ struct SlipHarness : Harness {
     std::vector<std::string> probes(const std::string &) const override {
         return {"garbage_ends_in_esc", "garbage_without_delimiter", "garbage_esc_followed_by_end", "sof_first_frame_lost", "empty_frame_sof", "empty_frame_classic",
                 "sink_error_on_escaped_octet", "encoder_source_error", "encoder_sink_error", "decoder_source_error", "decoder_sink_error", "illegal_sequence_reported",
-                "resynchronised_after_garbage", "concatenated_frames", "worst_case_length_reached", "source_error_between_frames_then_retry", "encode_while_decoder_is_inside_a_frame", "context_from_static_initialiser", "second_link_worked_during_a_sink_call", "earlier_link_failed_before_the_scenario", "second_link_worked_during_a_source_call", "sink_answered_not_now_during_encode"};
+                "resynchronised_after_garbage", "concatenated_frames", "worst_case_length_reached", "source_error_between_frames_then_retry", "source_error_on_a_closing_delimiter", "encode_while_decoder_is_inside_a_frame", "context_from_static_initialiser", "second_link_worked_during_a_sink_call", "earlier_link_failed_before_the_scenario", "second_link_worked_during_a_source_call", "sink_answered_not_now_during_encode"};
     }
     uint64_t runs(const std::string &, const Tier &t) const override { return t.thorough() ? 30000000 : 2500000; }
 
@@ -155,6 +155,7 @@ struct SlipHarness : Harness {
         if (fam == "garbage" && r.chance(1, 4)) {  // the same between the clean frames behind a corrupted prefix (boundary index, counted from the end of the garbage)
             Json f = Json::obj();
             f["boundary"] = (long long)r.below((uint64_t)k); f["code"] = r.chance(1, 2) ? ENODATA : EIO; f["rearm"] = (long long)r.below(3);
+            if (r.chance(1, 3)) f["closing"] = 1;   // not at the start of a frame but on the closing delimiter of the one before it (which the decoder may just be skipping)
             p["dry"] = f;
         }
         if (r.chance(1, 3)) {  // partial transfers on a chunk sink (>= 1 octet)
@@ -355,9 +356,10 @@ struct SlipHarness : Harness {
                 dcode = (int)dj.geti("code", ENODATA); if (dcode != ENODATA && dcode != EIO && dcode != EPIPE) dcode = ENODATA;
                 drearm = dj.geti("rearm"); if (drearm < 0 || drearm > 16) drearm = 0;
                 int64_t bi = dj.geti("boundary"); if (bi < 0) bi = 0; dnext = (size_t)bi % bounds.size();
+                if (dj.geti("closing") != 0 && dnext > 0) { for (auto &b : bounds) if (b > 0) b -= 1; COUNT("probe.source_error_on_a_closing_delimiter"); }   // every dry point moves onto the octet before the frame start
                 D.src.err_pos = (int64_t)bounds[dnext]; D.src.err_code = dcode;
             }
-            std::vector<Bytes> delivered;
+            std::vector<Bytes> delivered; Bytes pending;   // pending: payload octets a call had already passed on when the line failed under it
             size_t calls = 0;
             bool eilseq = false;
             for (;;) {
@@ -371,10 +373,11 @@ struct SlipHarness : Harness {
                     COUNT("probe.source_error_between_frames_then_retry");
                     if (rc != -dcode) { c.fail("error.decode_source", "driver failed with %d, decoder returned %d", -dcode, rc); return; }
                     if (drearm > 0 && dnext + 1 < bounds.size()) { --drearm; ++dnext; D.src.err_pos = (int64_t)bounds[dnext]; }
+                    pending.insert(pending.end(), got.begin(), got.end());
                     continue;
                 }
-                if (rc == 1) delivered.push_back(got);
-                else if (rc == -EILSEQ) eilseq = true;
+                if (rc == 1) { pending.insert(pending.end(), got.begin(), got.end()); delivered.push_back(pending); pending.clear(); }
+                else if (rc == -EILSEQ) { eilseq = true; pending.clear(); }
                 else if (rc == -ENODATA && D.src.pos == all.size()) break;
                 else { c.fail("result.resync", "decode returned %d on a line without driver faults", rc); return; }
                 if (consumed == 0) { c.fail("noprogress.resync", "decode call consumed nothing"); return; }
